@@ -62,7 +62,7 @@ pub fn css_string_dq(input: Span) -> PResult<CssString> {
     let (input, parts) = delimited(
         tag("\""),
         many0(alt((
-            map_res(is_not("\""), input_to_string),
+            map_res(is_not("\"\\"), input_to_string),
             value("\"".to_string(), tag("\\\"")),
             normalized_escaped_char_q,
         ))),
@@ -76,7 +76,7 @@ pub fn css_string_sq(input: Span) -> PResult<CssString> {
     let (input, parts) = delimited(
         tag("'"),
         many0(alt((
-            map_res(is_not("'"), input_to_string),
+            map_res(is_not("'\\"), input_to_string),
             value(String::from("'"), tag("\\'")),
             normalized_escaped_char_q,
         ))),
